@@ -617,4 +617,97 @@ def runD : StD → List OpD → StD × List (Except Err Out)
     let r' := runD r.1 ops
     (r'.1, r.2 :: r'.2)
 
+/-! ### an operation landing between a local update and its propagation
+
+`Directory.updateChildEntry` does its local update (`localUpdate`: the link of the child that changed) and only
+then calls its parent.  Another complete operation (`Mv` / `Unlink`, from another goroutine) can run in that
+gap (schedule point `Directory.updateChildEntry:localDone`).  `stepRace k trig intr` is that interleaving: the
+trigger (a Sync write / flush / descriptor flush at depth `d`) runs with the local updates of the `k` deepest
+directories only, then `intr` runs completely, then the node of the directory at depth `d - k` is handed to its
+parent -- unless that directory object is no longer the one cached under its path (it was unlinked: the check
+of `d.unlinked` comes AFTER the gap). -/
+
+/-- `parent.localUpdate(child{k, nd})` alone: the link, not the cache -/
+def actLinkUp (k : Name) (nd : N) : L → R Unit
+  | .file d m => ⟨.error .notdir, .file d m, none⟩
+  | .dir m e => ⟨.ok (), .dir m (e.setLink k nd), some (.dir m (e.setLink k nd).links)⟩
+
+/-- the operations whose propagation can be cut: target path and action -/
+def trigAct : Op → Option (List Name × (L → R Out))
+  | .write p off b sync => some (p, fun l => (actWrite sync (writeAt off b) l).out fun _ => .unit)
+  | .trunc p size sync => some (p, fun l => (actWrite sync (truncTo size) l).out fun _ => .unit)
+  | .flush p => some (p, fun l => (actFlush l).out fun _ => .unit)
+  | _ => none
+
+/-- run `act` at `p` with the local updates of the `k` deepest directories; what the directory at depth
+`p.length - k` would hand to its parent is returned instead of being propagated -/
+def splitRun (k : Nat) (p : List Name) (act : L → R Out) (root : L) : R Out × Option (List Name × N) :=
+  if k = 0 ∨ k > p.length then (atPath p act root, none)
+  else
+    let r := atPath (p.take (p.length - k))
+      (fun D => let q := atPath (p.drop (p.length - k)) act D
+                ⟨q.res.map fun o => (o, q.up), q.l, none⟩) root
+    match r.res with
+    | .error e => (⟨.error e, r.l, none⟩, none)
+    | .ok (o, none) => (⟨.ok o, r.l, none⟩, none)
+    | .ok (o, some nd) => (⟨.ok o, r.l, none⟩, some (p.take (p.length - k), nd))
+
+/-- the rest of the propagation, after the gap -/
+def resume (s : St) : Option (List Name × N) → St
+  | none => s
+  | some ([], nd) => ⟨s.root, nd⟩                       -- Root.updateChildEntry
+  | some (P, nd) =>
+    if s.root.cachedAt P then                            -- d.unlinked is false
+      let r := atPath P.dropLast (actLinkUp (lastName P) nd) s.root
+      ⟨r.l, r.up.getD s.pub⟩
+    else s
+
+inductive Trig where
+  | op (o : Op)
+  | fdflush
+  | fdclose
+
+def stepRace (s : StD) (k : Nat) (t : Trig) (intr : Op) : StD × Except Err Out × Except Err Out :=
+  let seq (t' : OpD) : StD × Except Err Out × Except Err Out :=
+    let r1 := stepD s t'
+    let r2 := stepD r1.1 (.base intr)
+    (r2.1, r1.2, r2.2)
+  -- `FlushPath` ends with `nd.GetNode()` on the FSNode it looked up: a directory that is still in place syncs
+  -- whatever the intruder cached below it
+  let post (s' : St) : St :=
+    match t with
+    | .op (.flush p) => if s'.root.cachedAt p then ⟨(atPath p actGetNode s'.root).l, s'.pub⟩ else s'
+    | _ => s'
+  let cut (p : List Name) (act : L → R Out) (fd' : Option Fd) : StD × Except Err Out × Except Err Out :=
+    let sr := splitRun k p act s.st.root
+    let s1 : StD := ⟨⟨sr.1.l, sr.1.up.getD s.st.pub⟩, fd'⟩
+    let r2 := stepD s1 (.base intr)
+    (⟨post (resume r2.1.st sr.2), r2.1.fd⟩, sr.1.res, r2.2)
+  match t with
+  | .op o =>
+    match s.fd with
+    | some fd =>
+      if busyOp fd o then (s, .error .busy, .error .busy)
+      else match trigAct o with
+        | some (p, act) => cut p act (some { fd with att := fd.att && (splitRun k p act s.st.root).1.l.cachedAt fd.path })
+        | none => seq (.base o)
+    | none =>
+      match trigAct o with
+      | some (p, act) => cut p act none
+      | none => seq (.base o)
+  | .fdflush =>
+    match s.fd with
+    | some fd =>
+      if fd.att && !fd.clean then
+        cut fd.path (fun l => (actSetFile true fd.buf fd.m l).out fun _ => .unit) (some { fd with clean := true })
+      else seq .fdflush
+    | none => seq .fdflush
+  | .fdclose =>
+    match s.fd with
+    | some fd =>
+      if fd.att && !fd.clean && fd.sync then
+        cut fd.path (fun l => (actSetFile true fd.buf fd.m l).out fun _ => .unit) none
+      else seq .fdclose
+    | none => seq .fdclose
+
 end C19
